@@ -1257,8 +1257,8 @@ void h_spgemm_rmerge(void)
 """,
     entry='h_spgemm_rmerge', mode='unwound', unwind='3*ZMAX*ZMAX+3', model='int32',
     variants=[{'NMAX': 2, 'ZMAX': 3, 'AMAX': 3, 'VMASK': 1, 'VOFF': 0}],
-    thorough_variants=[{'NMAX': 2, 'ZMAX': 4, 'AMAX': 4, 'VMASK': 1, 'VOFF': 0}, {'NMAX': 3, 'ZMAX': 3, 'AMAX': 3, 'VMASK': 1, 'VOFF': 0}, {'NMAX': 2, 'ZMAX': 3, 'AMAX': 3, 'VMASK': 3, 'VOFF': 0}],
-    bound_text='all compatible pairs A (n x m, any pattern incl. unsorted rows and repeated columns), B (m x k, rows strictly ascending) with n,m,k <= 2, nnz <= 3 each, values in {0,1}; 1 or 2 threads, any thread id (thorough: nnz <= 4; 3x3; values 0..3)',
+    thorough_variants=[{'NMAX': 2, 'ZMAX': 4, 'AMAX': 4, 'VMASK': 1, 'VOFF': 0}, {'NMAX': 3, 'ZMAX': 2, 'AMAX': 2, 'VMASK': 1, 'VOFF': 0}, {'NMAX': 2, 'ZMAX': 3, 'AMAX': 3, 'VMASK': 3, 'VOFF': 0}],
+    bound_text='all compatible pairs A (n x m, any pattern incl. unsorted rows and repeated columns), B (m x k, rows strictly ascending) with n,m,k <= 2, nnz <= 3 each, values in {0,1}; 1 or 2 threads, any thread id (thorough: nnz <= 4; 3x3 with nnz <= 2 -- 3x3 with nnz <= 3 did not finish within 22 minutes on an idle host and was replaced; values 0..3)',
     assumptions=A_RMERGE + ['A-callee: prod_row_width and prod_row are contract stubs (hand-written from the contracts that units spgemm_prod_row_width / spgemm_prod_row enforce on the real bodies, bounded): the stubs check the callee preconditions at every call (operands, scratch window sizes and disjointness, output row inside C) and produce the specified result',
                             'A-vals: quick variant restricts stored values to {0,1}: the entries of C are multilinear in the stored values for each fixed pattern (no branch reads a value)',
                             'A-omp: OpenMP pragmas dropped; the text is verified sequentially for an arbitrary thread id tid in [0, nt): every row is processed with the scratch of that thread',
